@@ -136,7 +136,7 @@ def run_builtin_sweep(ck):
           jobs.append((eng, name, tuple(ck.rng.choice(sorted(SWEEP_ARGS)) for _ in range(n))))
   jobs = sorted(set(jobs))
   ck.rng.shuffle(jobs)
-  jobs = jobs[:ck.budget(500, 100000)]
+  jobs = jobs[:ck.budget(500, 8000)]
   for (eng, name, args), d in zip(jobs, core.pmap(sweep_job, jobs)):
     ck.case(['sweep', eng, name, args], d['kind'] == 'ok', ['sweep:' + eng, 'sweep-outcome:' + d['kind']])
     rp = {'engine': eng, 'program': d['text'], 'message': d['msg']}
@@ -152,12 +152,12 @@ def run_builtin_sweep(ck):
 def run(ck):
   run_templates(ck)
   run_builtin_sweep(ck)
-  n = ck.budget(16, 300)
+  n = ck.budget(16, 160)
   # records / lists of the generator are untyped literals: dialects that need element types reject them with a
   # diagnostic, which is an allowed outcome; keep a typed-friendly mask for half of the programs
   made = semcheck.make_programs(ck, n // 2, G.Gen.ALL)
   made += semcheck.make_programs(ck, n - n // 2, G.Gen.ALL - {'lists', 'records'})
-  made += semcheck.make_programs(ck, ck.budget(24, 200), None, {}, builder=templates.build)
+  made += semcheck.make_programs(ck, ck.budget(24, 120), None, {}, builder=templates.build)
   # unary-minus chains (a negation whose operand renders with a leading minus)
   neg_progs = []
   for i in range(ck.budget(4, 40)):
